@@ -60,7 +60,10 @@ RULE = ("random DAGs of 0-25 objects (contents, skipped contents, directories bu
         "Directory with raw_manifest (canonical, or a zero-padded-mode manifest with its own id), explicit id, "
         "executable files, entry names carrying harvested literals, 'rev' entries for targets outside the set; objects "
         "built by __init__, from_data, from_dict, or as instances of a loader's subclass; contents referenced by no "
-        "directory and entries referencing nothing of the set.  DEEP hierarchies "
+        "directory and entries referencing nothing of the set.  In about one case in five, ONE extra skipped content has "
+        "sha1_git = None (sha1 set): discovery keys it on None, asks skipped_content_missing about None, and must "
+        "return it exactly when the archive reports None missing, with one callback; no directory references it.  "
+        "DEEP hierarchies "
         "(4 per quick run, 40 per thorough run): chains of 1200-2000 nested directories with 0-2 (skipped) contents "
         "per level, combs (a leaf directory at every level of the spine), two chains sharing a long tail, with archives "
         "knowing nothing / everything / the bottom k levels, SAMPLE_SIZE 1, 3, 1000, all three samplers; termination "
@@ -74,8 +77,9 @@ ASSUMPTIONS = ["update_info_callback is any callable taking (obj, known) - nothi
                "or length; callables whose __eq__/__bool__ RAISE are not generated",
                "the archive's answers depend only on the ids asked (a fixed set of missing ids); it may do anything to the "
                "list object it is handed and may reuse the list object it returns",
-               "every given object has a sha1_git / id (a SkippedContent may lack its other hashes; one without sha1_git has no "
-               "identity discovery could key on and is outside the property); directory ids equal sha1(raw_manifest or the "
+               "at most ONE given object lacks a sha1_git (a SkippedContent; it is then the object whose id is None, abstract "
+               "id 0 in the model); two or more such objects collide on the key None - they are not pairwise distinct ids - "
+               "and stay outside the property; a SkippedContent may lack any of its other hashes; directory ids equal sha1(raw_manifest or the "
                "canonical manifest) - directories with an arbitrary explicit id are not generated",
                "archive.contents / skipped_contents / directories are lists (or list subclasses), as the interface types them",
                "the ids of the given contents, skipped contents and directories are pairwise distinct",
@@ -219,6 +223,7 @@ def mk_case(rng, n, shape, ss, strategy, missing_mode):
         case["archive"] = rng.choice(ARCHIVE_SHAPES[1:])
     if rng.random() < 0.4:
         case["arg"] = rng.choice(ARG_SHAPES[1:])
+    add_no_id(rng, case, 0.2)
     if rng.random() < 0.6:      # the model objects themselves (status, optional fields, construction route, subclasses)
         case["objvar"] = rng.randrange(1 << 30)
     if rng.random() < 0.25:
@@ -226,6 +231,7 @@ def mk_case(rng, n, shape, ss, strategy, missing_mode):
     return case
 
 
+NO_ID = 0               # abstract id of THE object without sha1_git (a SkippedContent; at most one per case)
 DEEP_OUT = 10 ** 6      # entry targets outside the set in the deep shapes
 DEEP_SHAPES = ["chain", "comb", "twin"]
 DEEP_MODES = ["nothing-known", "all-known", "bottom-known"]
@@ -348,6 +354,7 @@ def gen_deep(rng, tier):
             c["arg"] = rng.choice(ARG_SHAPES[1:])
         if rng.random() < 0.5:
             c["objvar"] = rng.randrange(1 << 30)
+        add_no_id(rng, c, 0.25)
         cases.append(c)
     return cases
 
@@ -364,6 +371,16 @@ NO_CALLBACK = ("none", "omitted")
 ARCHIVE_SHAPES = ["closures", "methods", "callable_attrs", "staticmethods", "slots"]
 CONTAINER_SHAPES = ["list", "list_subclass"]
 FALSY_CALLBACKS = ("falsy_bool", "falsy_list", "falsy_dict", "falsy_counter", "falsy_stays")
+
+def add_no_id(rng, case, p):
+    """with probability p, one more skipped content: the one whose sha1_git is None (another hash is set).  No directory
+    can reference it (an entry needs a target); the archive knows it or lacks it like any other object: discovery
+    asks skipped_content_missing([None, ...]) and None comes back when it is missing."""
+    if rng.random() < p:
+        case["skipped"].insert(rng.randrange(len(case["skipped"]) + 1), NO_ID)
+        if rng.random() < 0.5:
+            case["missing"] = sorted(case["missing"] + [NO_ID])
+
 
 _PENDING = {}     # hashseed -> cases generated for a subprocess run (filled by gen)
 
@@ -387,6 +404,9 @@ def gen(rng, tier):
     cases += [dict(ex, arg=a, ss=k % 2 + 1) for k, a in enumerate(ARG_SHAPES[1:])]
     cases += [dict(ex, answer=a, arg="reverse") for a in ANSWER_SHAPES[7:]]
     cases += [dict(ex, objvar=k, missing=m) for k, m in ((1, [2, 10, 12]), (2, [1, 2, 3, 10, 11, 12]), (3, []))]
+    cases += [dict(ex, skipped=[NO_ID, 3], missing=[0, 2, 10, 12]), dict(ex, skipped=[3, NO_ID], objvar=4),
+              {"contents": [], "skipped": [NO_ID], "dirs": [], "missing": [0], "ss": 1, "sampler": "deep"},
+              {"contents": [], "skipped": [NO_ID], "dirs": [], "missing": [], "ss": 1000, "sampler": "deep", "cb": "falsy_list"}]
     shapes = ["flat", "deep", "shared", "mixed", "dirs-only"]
     modes = ["few", "half", "leaf", "few", "half", "none", "all"]
     strategies = ["random", "deep", "shallow"]
@@ -450,6 +470,8 @@ def classify(c):
     ks += ["callback=" + c.get("cb", CALLBACK_SHAPES[0]), "archive=" + c.get("archive", ARCHIVE_SHAPES[0]),
            "answer=" + c.get("answer", ANSWER_SHAPES[0]), "containers=" + c.get("containers", CONTAINER_SHAPES[0]),
            "argument=" + c.get("arg", ARG_SHAPES[0])]
+    if NO_ID in c["skipped"]:
+        ks.append("object-without-sha1_git:" + ("missing" if NO_ID in c["missing"] else "known"))
     if "objvar" in c:
         ks.append("objects=varied")
         miss = set(c["missing"])
@@ -560,14 +582,21 @@ def build_objects(c):
         objs[i] = o
     for i in c["skipped"]:
         v = obj_variant(c, i, "skipped")
-        if not v:
+        if not v and i == NO_ID:
+            d = model.SkippedContent.from_data(b"skipped without sha1_git", reason="too big").to_dict()
+            d["sha1_git"] = None
+            o = model.SkippedContent(**d)
+        elif not v:
             o = model.SkippedContent.from_data(b"skipped %d" % i, reason="too big")
         else:
             cls = sub["skipped"] if v["how"] == "subclass" else model.SkippedContent
             o = cls.from_data(_tok(v) + b"skipped %d" % i, reason=_tok(v, "str") + " (object too big)")
             d = o.to_dict()
             for h in v["drop"]:
-                d[h] = None          # a skipped content may lack hashes; discovery keys on sha1_git, which is kept
+                d[h] = None          # a skipped content may lack hashes; discovery keys on sha1_git, which is kept ...
+            if i == NO_ID:           # ... except for this one object, which keeps its sha1 instead
+                d["sha1_git"] = None
+                d["sha1"] = o.sha1
             if v["origin"]:
                 d["origin"] = "https://example.org/" + _tok(v, "str").strip() + "/%d" % i
             if v["ctime"]:
@@ -695,7 +724,7 @@ def mutate_argument(shape, arg, ans):
         for b in [b for b in arg if b in gone]:
             arg.remove(b)
     elif shape == "sort":
-        arg.sort()
+        arg.sort(key=lambda b: b or b"")
     elif shape == "reverse":
         arg.reverse()
     elif shape == "shuffle":
@@ -729,7 +758,7 @@ def shape_answer(shape, ans, arg=None, kept=None):
         kept.extend(ans)
         return kept
     if shape == "bytes_subclass":
-        return [_Id(b) for b in ans]
+        return [b if b is None else _Id(b) for b in ans]
     return ans
 
 
